@@ -88,8 +88,12 @@ func (o *objectGoMapSimple) defineOwnPropertyStr(name unistring.String, descr Pr
 	}
 
 	n := name.String()
+	if descr.Value == nil && o._hasStr(n) {
+		// nothing to change: the attributes have been checked and there is no new value
+		return true
+	}
 	if o.extensible || o._hasStr(n) {
-		o.data[n] = descr.Value.Export()
+		o.data[n] = nilSafe(descr.Value).Export()
 		return true
 	}
 
